@@ -51,25 +51,31 @@ def chainSpecB (nb : V → List V) (comp : List V) (so : V → Option Int) (tag 
     let inner := sortStrings b.1
     (inner.map (fun v => (tag v).map (·.1))).eraseDups.length == 1 &&
     inner.zipIdx.all (fun (v, j) => (tag v).map (·.2) == some ((j : Int) + 1))) &&
-  -- the BO values of the chain elements are exactly lo, lo+1, …, lo+n-1
+  -- every chain element has its own BO value, none below `lo` (the ranges of earlier chromosomes)
   (let eltBo : List (Option Int) := c.aps.map (fun a => (tag a).map (·.1)) ++ c.bubbles.map (fun b => (b.1.head?.bind tag).map (·.1))
-   (List.range n).all (fun k => (eltBo.filter (· == some (lo + (k : Int)))).length == 1)) &&
-  -- consecutive elements are adjacent in the chain (scaffold–bubble through the block, scaffold–scaffold through a bridge)
-  (List.range (n - 1)).all (fun k =>
-    let at_ (b : Int) : List (Sum V Nat) :=
-      (c.aps.filter (fun a => (tag a).map (·.1) == some b)).map Sum.inl ++
-      ((List.range c.bubbles.length).filter (fun i => (((c.bubbles.getD i ([], [])).1.head?.bind tag).map (·.1)) == some b)).map Sum.inr
-    match at_ (lo + (k : Int)), at_ (lo + (k : Int) + 1) with
-    | [Sum.inl a], [Sum.inr i] => ((c.bubbles.getD i ([], [])).2).contains a
-    | [Sum.inr i], [Sum.inl a] => ((c.bubbles.getD i ([], [])).2).contains a
-    | [Sum.inl a], [Sum.inl b] => c.bridges.any (fun p => (p.1 == a && p.2 == b) || (p.1 == b && p.2 == a))
-    | _, _ => false) &&
+   eltBo.all (fun b => match b with | some v => decide (lo ≤ v) | none => false) &&
+   eltBo.eraseDups.length == eltBo.length && eltBo.length == n) &&
+  -- walking the elements in order of increasing BO, consecutive elements are adjacent in the chain
+  -- (scaffold–bubble through the block, scaffold–scaffold through a bridge)
+  (let elts : List (Int × Sum V Nat) :=
+     (c.aps.filterMap (fun a => (tag a).map (fun t => (t.1, Sum.inl a)))) ++
+     ((List.range c.bubbles.length).filterMap (fun i => (((c.bubbles.getD i ([], [])).1.head?.bind tag).map (fun t => (t.1, Sum.inr i)))))
+   let sorted := elts.mergeSort (fun x y => decide (x.1 ≤ y.1))
+   (List.zip sorted sorted.tail).all (fun p => match p.1.2, p.2.2 with
+     | Sum.inl a, Sum.inr i => ((c.bubbles.getD i ([], [])).2).contains a
+     | Sum.inr i, Sum.inl a => ((c.bubbles.getD i ([], [])).2).contains a
+     | Sum.inl a, Sum.inl b => c.bridges.any (fun q => (q.1 == a && q.2 == b) || (q.1 == b && q.2 == a))
+     | _, _ => false)) &&
   -- reference offsets strictly increase along the scaffold nodes
   (let scaf := (c.aps.filterMap (fun a => match tag a, so a with | some t, some o => some (t.1, o) | _, _ => none))
    scaf.all (fun x => scaf.all (fun y => !(decide (x.1 < y.1)) || decide (x.2 < y.2))))
 
 /-- C07 for one written component: the output file against the input file -/
 def stripBoNo (tags : List Tag) : List Tag := tags.filter (fun t => t.name != "BO" && t.name != "NO")
+
+/-- the same tags, each as often (their order on the line is not constrained by the property) -/
+def sameTags (x y : List Tag) : Bool :=
+  x.length == y.length && x.all (fun t => (x.filter (· == t)).length == (y.filter (· == t)).length)
 
 def specWritten (tin : GfaFile) (comp : List V) (tag : V → Option (Int × Int)) (withSeq : Bool) (tout : GfaFile) : Bool :=
   let segsIn := tin.segs.filter (fun s => comp.contains s.id)
@@ -78,7 +84,7 @@ def specWritten (tin : GfaFile) (comp : List V) (tag : V → Option (Int × Int)
   segsIn.all (fun s => match tout.segs.filter (·.id == s.id) with
     | [o] =>
       o.seq == (if withSeq then s.seq else "*") &&
-      stripBoNo o.tags == stripBoNo s.tags &&
+      sameTags (stripBoNo o.tags) (stripBoNo s.tags) &&
       (match tag s.id with
        | some (b, n) => (o.tags.filter (·.name == "BO")).map (·.val) == [toString b] && (o.tags.filter (·.name == "NO")).map (·.val) == [toString n] &&
                         (o.tags.filter (fun t => t.name == "BO" || t.name == "NO")).all (·.ty == "i")
